@@ -244,7 +244,7 @@ fn stage_field(i: u8) -> u8 { match i { 0 | 2 | 3 => 0, 1 => 1, 4 | 5 => 2, 6 | 
 
 // O-C08.orchestration (bounded: records of <= 12 bytes with any number of spaces)
 #[kani::proof]
-#[kani::unwind(10)]
+#[kani::unwind(14)]
 #[kani::stub(core::slice::memchr::memrchr, simple_memrchr)]
 #[kani::stub(core::slice::memchr::memchr, simple_memchr)]
 #[kani::stub(crate::board::Board::parse_board, o_parse_board)]
